@@ -143,6 +143,50 @@ def check(run: Run) -> None:
         descs.append(desc)
         if i == 0:
             run.sample({"model": desc, "observed": obs})
+        # the declared initial state / plain parameters edited through the public API AFTER the queries above
+        # filled the cache: assignments must be resolved again from the NEW declared state
+        plain_v = [n for n, v in desc["var"] if v[0] == "plain"]
+        plain_p = [n for n, v in desc["par"] if v[0] == "plain"]
+        if plain_v or plain_p:
+            ups_v = [(n, rng.randint(-3, 3)) for n in rng.sample(plain_v, min(len(plain_v), rng.choice([0, 1, 1, 2])))]
+            ups_p = [(n, rng.randint(-3, 3)) for n in rng.sample(plain_p, min(len(plain_p), rng.choice([0, 1, 1])))]
+            if not ups_v and not ups_p:
+                ups_v = [(n, rng.randint(-3, 3)) for n in plain_v[:1]]
+                ups_p = [] if ups_v else [(n, rng.randint(-3, 3)) for n in plain_p[:1]]
+            desc2 = apply_updates13(desc, ups_v, ups_p)
+            orc2 = Oracle(desc2)
+            try:
+                orc2.initial_env()
+                for t, s in states:
+                    for k in orc2.all_names():
+                        orc2.value(k, orc2.initial_conditions() if s is None else s, t)
+            except Unbounded:
+                dist["discarded_unbounded"] += 1
+                continue
+            dist["after_update"] = dist.get("after_update", 0) + 1
+            run.count_case(("upd", repr(desc), repr(ups_v), repr(ups_p)), nontrivial=True)
+            try:
+                for n, v in ups_v:
+                    m.update_variable(nm(n), float(v))
+                for n, v in ups_p:
+                    m.update_parameter(nm(n), float(v))
+                obs2 = observe13(m, desc2)
+                per_state = []
+                for t, s in states:
+                    vars_d = None if s is None else {nm(k): float(v) for k, v in s.items()}
+                    a = m.get_args(vars_d, time=float(t))
+                    per_state.append((t, s, [(un(k), common.exact_int(v)) for k, v in a.items()]))
+                bad = judge13(desc2, orc2, obs2, per_state)
+            except Exception as e:  # noqa: BLE001
+                bad = f"well-formed model raised {type(e).__name__}: {e}"
+            if bad:
+                if n_viol < 4:
+                    n_viol += 1
+                    run.violation(f"C13 after update_variable {[(nm(n), v) for n, v in ups_v]} / update_parameter {[(nm(n), v) for n, v in ups_p]} (queried before): {bad}",
+                                  {"kind": "c13", "desc": desc, "states": states, "updates_var": ups_v, "updates_par": ups_p})
+                continue
+            cases.append(coq_case13(desc2, obs2))
+            descs.append(desc2)
     run.coverage["input_distribution"] = dist
     files = {f"c13_{k:04d}": corr_file(chunk) for k, chunk in enumerate(common.chunks(cases, 200))}
     res = common.coq_eval_many(AREA, files, timeout_s=900)
@@ -161,12 +205,30 @@ def check(run: Run) -> None:
     run.coverage["correspondence_mismatches"] = mism
 
 
+def apply_updates13(desc, ups_v, ups_p):
+    d2 = {k: list(v) for k, v in desc.items()}
+    nv, np_ = dict(ups_v), dict(ups_p)
+    d2["var"] = [(n, ("plain", nv[n])) if n in nv else (n, v) for n, v in desc["var"]]
+    d2["par"] = [(n, ("plain", np_[n])) if n in np_ else (n, v) for n, v in desc["par"]]
+    return d2
+
+
 def replay(rep: dict) -> int:
     r = rep["replay"]
     desc = {k: [c01._tup(x) for x in v] for k, v in r["desc"].items()}
-    orc = Oracle(desc)
+    ups_v = [tuple(u) for u in r.get("updates_var", [])]
+    ups_p = [tuple(u) for u in r.get("updates_par", [])]
     try:
         m = modelgen.build(desc)
+        if ups_v or ups_p:
+            observe13(m, desc)
+            m.get_args(None, time=0.0)
+            for n, v in ups_v:
+                m.update_variable(nm(n), float(v))
+            for n, v in ups_p:
+                m.update_parameter(nm(n), float(v))
+            desc = apply_updates13(desc, ups_v, ups_p)
+        orc = Oracle(desc)
         obs = observe13(m, desc)
         per_state = []
         for t, s in r["states"]:
